@@ -452,7 +452,7 @@ pub fn run(ctx: &mut Ctx) {
                 continue;
             }
             ctx.case_begin(&json!({"family": family, "i": i}));
-            eval_case(ctx, &case, None);
+            crate::report::guarded(ctx, |ctx| eval_case(ctx, &case, None));
         }
     }
 }
